@@ -1,9 +1,10 @@
 -------------------------- MODULE MC_GenCoordsOut --------------------------
 EXTENDS GenCoordsOut, Json
 At(resid, rn, an, mass) == [resid |-> resid, rn |-> rn, an |-> an, mass |-> mass]
-MCTypes == [t \in {"W", "A", "V"} |->
+MCTypes == [t \in {"W", "A", "V", "L"} |->
    IF t = "W" THEN [atoms |-> << At(1, "W", "W", 72) >>]
    ELSE IF t = "A" THEN [atoms |-> << At(1, "RA", "a1", 36), At(1, "RA", "a2", 36), At(2, "RB", "b1", 36), At(2, "RB", "b2", 36), At(3, "RA", "a1", 36), At(3, "RA", "a2", 36) >>]
+   ELSE IF t = "L" THEN [atoms |-> [i \in 1..8 |-> At(i, IF i % 2 = 1 THEN "RA" ELSE "RB", IF i % 2 = 1 THEN "a1" ELSE "b1", 36)]]
    ELSE [atoms |-> << At(1, "RV", "c1", 36), At(1, "RV", "c2", 36), At(1, "RV", "v", 0), At(2, "RA", "a1", 36), At(2, "RA", "a2", 36) >>]]
 E(t, n) == [type |-> t, n |-> n]
 Names == {"W", "A", "V"}
